@@ -68,3 +68,8 @@ package dns
 //@   may-panic
 //@   exit arcount: ret2 == nil ==> ret0[10] * 256 + ret0[11] == (len(m.Extra) + 1) % 65536
 //@   exit shrunk: ret2 == nil ==> len(m.Extra) == old(len(m.Extra)) - 1
+
+// RFC 8945 4.3: the digest components, field by field, uncompressed and starting at offset 0
+//@ wirefmt packTsigWire Name:pubname Class:u16 Ttl:u32 Algorithm:pubname TimeSigned:u48 Fudge:u16 Error:u16 OtherLen:u16 OtherData:hex [C11]
+//@ wirefmt packMacWire MACSize:u16 MAC:hex [C11]
+//@ wirefmt packTimerWire TimeSigned:u48 Fudge:u16 [C11]
